@@ -137,6 +137,7 @@ class FatAreaAdapter(Adapter):
         sector_links = [SectorLink()] * FAT_NUM_ENTRIES
         dirty_flags = [False] * FAT_NUM_ENTRIES
         dirty_flags[0:2] = [True, True]
+        resolved_flags = [False] * FAT_NUM_ENTRIES
         for i in range(2, FAT_NUM_ENTRIES - 9):
 
             if dirty_flags[i]:
@@ -148,6 +149,16 @@ class FatAreaAdapter(Adapter):
                 if subpath_index >= FAT_NUM_ENTRIES:
                     break
                 
+                if resolved_flags[subpath_index]:
+                    # the rest of this chain was walked before: join it
+                    for link, next_link in zip(
+                        subpath_links, 
+                        subpath_links[1:] + [subpath_index]
+                    ):
+                        sector_links[link] = SectorLink(next_link, False)
+                        resolved_flags[link] = True
+                    break
+
                 value = fat_entries[subpath_index]
                 dirty_flags[subpath_index] = True
 
@@ -170,6 +181,8 @@ class FatAreaAdapter(Adapter):
 
                 if FAT_IS_END_F(value):
                     add_to_sector_links(subpath_links, sector_links)
+                    for link in subpath_links:
+                        resolved_flags[link] = True
                     break
 
                 subpath_index = value
